@@ -113,10 +113,15 @@ def shards(tier, seed):
 
 # ------------------------------------------------------------------------------------------
 
+class _TooManyTimeouts(Exception):
+    pass
+
+
 class _Run:
     def __init__(self, acc):
         self.acc = acc
         self.seen_defs = set()
+        self.timeouts = 0
 
     def grid_case(self, case, *, twice=True, path_matrix=False, kind="grid", sample=True):
         """One definition case through the full networkx oracle. Returns (kind, observation, valid)."""
@@ -126,7 +131,11 @@ class _Run:
         def emit(sig, msg, expected=None, observed=None):
             acc.violation(sig, f"{msg} | case={json.dumps(case)}", stored, expected, observed)
 
+        if self.timeouts >= L.MAX_TIMEOUTS:
+            raise _TooManyTimeouts()
         label, k, obs, n_tr, valid = L.check_case(case, emit, twice=twice, path_matrix=path_matrix)
+        if k == "refused" and obs.startswith("refused:CaseTimeout"):
+            self.timeouts += 1
         acc.evaluation(n_tr)
         acc.transition(n_tr)
         key = L.case_key(case)
@@ -137,7 +146,8 @@ class _Run:
         if case["n"] >= 2 and n_refs >= 1:
             acc.nontriv(key)
         acc.outcome(label)
-        if sample and valid and case["n"] >= 3 and n_refs >= 3 and case["bits"] % 7 == 3 and k == "accepted":
+        if (sample and valid and k == "accepted" and case["n"] >= 3 and n_refs >= 3 and case["bits"] % 7 == 3
+                and case["ctor"] == ("direct", "from_dict", "from_dict_nif", "direct")[(case["bits"] // 7) % 4]):
             names, parents = L.definitions(case)
             acc.sample({"definitions": dict(zip(names, parents)), "ctor": case["ctor"], "observed_order": obs["order"],
                         "observed_children": obs["children"]})
@@ -433,10 +443,15 @@ def _hashseed_violations(hashseed, desc, emit, acc=None):
     if len(theirs) != len(mine):
         raise RuntimeError("child enumerated another number of cases")
     differs = res["probe"] != L.hash_probe()
+    if acc is not None and any(str(d).startswith("skipped") for d in mine + theirs):
+        acc.cap(f"{L.MAX_TIMEOUTS} constructions did not terminate within {L.CASE_TIME_LIMIT_S} s; the rest of the hash-seed comparison was skipped")
     for item, d0, d1 in zip(items, mine, theirs):
+        if str(d0).startswith("skipped") and str(d1).startswith("skipped"):
+            continue
         if acc is not None:
             acc.evaluation(2)
             acc.transition(2)
+            acc.state()
             acc.outcome("hashseed:same" if d0 == d1 else "hashseed:differs")
             acc.outcome(d0 if str(d0).startswith("refused") else "accepted")
             acc.nontriv({"model": item} if desc["what"] == "models" else L.case_key(item))
@@ -457,7 +472,6 @@ def _run_hashseed(shard, acc):
         acc.violation(sig, msg, case, expected, observed)
 
     differs, n = _hashseed_violations(shard["hashseed"], shard["desc"], emit, acc)
-    acc.state(n)
     acc.count("hashseed_children")
     if differs:
         acc.count("hashseed_children_with_other_set_order")
@@ -483,7 +497,10 @@ _RUNNERS = {
 
 def run_shard(shard):
     acc = Acc()
-    _RUNNERS[shard["kind"]](shard, acc)
+    try:
+        _RUNNERS[shard["kind"]](shard, acc)
+    except _TooManyTimeouts:
+        acc.cap(f"{L.MAX_TIMEOUTS} constructions did not terminate within {L.CASE_TIME_LIMIT_S} s (reported as violations); shard stopped early")
     return acc.to_dict()
 
 
